@@ -287,9 +287,7 @@ impl<'a> P<'a> {
                                             let mut buf = [0u8; 4];
                                             out.extend_from_slice(ch.encode_utf8(&mut buf).as_bytes());
                                             paired = true;
-                                            if br || br2 {
-                                                self.exact = false;
-                                            }
+                                            let _ = br2;
                                         }
                                         Ok(_) => {
                                             self.i = save;
@@ -444,8 +442,9 @@ pub fn write_string(s: &str, out: &mut Vec<u8>, st: &Style, rng: &mut Rng) {
         let enc = ch.encode_utf16(&mut units);
         let pair = enc.len() == 2;
         for u in enc.iter() {
-            // bracket form only for non-surrogate units (value of bracketed surrogates is unspecified)
-            let bracket = st.esc >= 2 && !pair && rng.chance(1, 3);
+            // either form for every unit, including the halves of a surrogate pair
+            let bracket = st.esc >= 2 && rng.chance(1, 3);
+            let _ = pair;
             let h = if upper { format!("{:04X}", u) } else { format!("{:04x}", u) };
             if bracket {
                 out.extend_from_slice(format!("\\u{{{}}}", h).as_bytes());
